@@ -4,6 +4,7 @@ import copy
 import gc
 import random
 
+import model
 import monitors
 import scenario as S
 from sim import run_scenario
@@ -13,12 +14,18 @@ from .base import Result, V
 from . import simcommon as SC
 from .c07 import dev
 
-MODULES = ['TickitModel.Props.C14', 'TickitModel.Props.C06']
-THEOREMS = ['resources_bounded', 'peak_bounded', 'leaky_grows', 'leaky_tcp_grows', 'addWakeup_length', 'addWakeup_unique', 'delWakeups_unique']
+MODULES = ['TickitModel.Props.C14', 'TickitModel.Props.C06', 'TickitModel.Props.C14Loop', 'TickitModel.Props.C14Race', 'TickitModel.Props.C14Ticker']
+THEOREMS = ['resources_bounded', 'peak_bounded', 'leaky_grows', 'leaky_tcp_grows', 'addWakeup_length', 'addWakeup_unique', 'delWakeups_unique',
+            'res_step_erases', 'res_step_invisible', 'res_run_erases', 'res_run_lifts', 'res_invariant', 'loop_tasks_bounded', 'loop_tasks_exact', 'loop_entries_bounded',
+            'old_loop_preemption_leaks', 'old_loop_resources_grow', 'res_control_independent', 'new_loop_same_history_clean',
+            'system_race_invariant', 'system_race_bounded', 'system_farm_bounded', 'old_system_race_grows', 'new_system_race_clean',
+            'tcp_bounded', 'tcp_quiescent', 'old_tcp_grows', 'new_tcp_same_history_clean',
+            'extent_within_components', 'components_is_a_set', 'ticker_toUpdate_bounded', 'ticker_toUpdate_le_extent', 'ticker_toUpdate_shrinks']
 ANCHORS = ["src/tickit/core/components/system_component.py", "src/tickit/core/management/schedulers/master.py",
-           "src/tickit/core/management/ticker.py", "src/tickit/core/management/schedulers/base.py", "src/tickit/adapters/io/tcp_io.py"]
-TECHNIQUE = 'Lean 4 theorems on the bookkeeping bound (one wakeup entry per component) and a ledger model of task creation/release per scheduler operation + measurement of the real event loop (live tasks, retained finished tasks via gc, timers, bookkeeping entries) after N, 2N, 4N ticks / messages'
-LEVEL_TEXT = 'PARTIAL. Proved: the wakeup bookkeeping holds at most one entry per component for every history; in the ledger model (which tabulates, per scheduler operation, the tasks/timers/entries it creates and releases) every history of ticks, pre-emptions, interrupts, system ticks and TCP chunks returns live tasks, retained tasks and timers to their baseline with entries <= 2 per component, the excess inside an operation is bounded by the components taking part, and the pre-repair behaviour grows linearly. Task and timer lifetimes are asyncio runtime behaviour that a model can only tabulate, so the weight is on measurement: 7 long runs (flat periodic, nested periodic, depth-2, far callback pre-empted by interrupts; with and without interrupts) are measured after N, 2N, 4N master ticks (N = 40 quick / 500 thorough): live tasks, finished-but-retained Task objects (gc), pending timers, wakeups, pending interrupts; plus 1200 / 16000 messages on one TCP connection through the real handle function with fake streams; a resource that is higher at 4N than at N by more than 2 with non-decreasing differences is reported.'
+           "src/tickit/core/management/ticker.py", "src/tickit/core/management/schedulers/base.py", "src/tickit/adapters/io/tcp_io.py",
+           "src/tickit/adapters/io/zeromq_push_io.py"]
+TECHNIQUE = 'Lean 4 theorems (invariants by induction over EVERY history of statement-level transition systems with ghost resource counters: the master run loop - proved to erase to the flag protocol that the trace acceptor ties to _do_tick -, the system component tick/error race, the TCP reply tasks, the ticker\'s to_update table; growth witnesses for the pre-repair code) + trace acceptance of the master loop in every long run + measurement of the real event loop (live tasks, retained finished tasks via gc, timers, entries of every reachable container) after N, 2N, 4N ticks / messages'
+LEVEL_TEXT = ('Proved (Props/C14Loop, C14Race, C14Ticker; invariants by induction over every history, no bound on its length): (1) the master run loop annotated with ghost counters for the tasks and the timer of the sleep / new-wakeup race: erasing the counters gives exactly the flag protocol MLoopSt.step (res_step_erases, res_run_erases, res_run_lifts - the protocol that the driver\'s trace acceptor ties to the real _do_tick on every run), and after ANY history of add_wakeup / interrupt / expiry / loop moves the loop holds <= 2 live tasks and <= 1 timer, none at all outside the race (loop_tasks_bounded, loop_tasks_exact); len(wakeups) <= number of DISTINCT components that ever asked and len(_pending_interrupts) <= len(wakeups) (loop_entries_bounded); without the cancellation of the loser (code before 8a9136c) n pre-emptions of a far sleep leave n tasks and n timers, for every n (old_loop_resources_grow). (2) the system component\'s tick/error race: <= 2 tasks per system component and 0 outside on_tick for every history, <= 2k for k system components under any interleaving, and linear growth before f518297 (system_race_bounded, system_farm_bounded, old_system_race_grows). (3) TCP reply tasks: for every history of connections, chunks, completions and closes the stored handles are exactly the replies still in flight on open connections - independent of the number of chunks processed - and n chunks left n+1 retained handles before 9447ad9 (tcp_bounded, tcp_quiescent, old_tcp_grows). (4) in every reachable state of every tick len(to_update) <= |extent| <= |components| (ticker_toUpdate_bounded). (5) one wakeup entry per component (addWakeup_length ...) and the older operation-level ledger. PARTIAL: task and timer lifetimes inside asyncio (lazy purging of cancelled timer handles, garbage collection of finished tasks, what other adapters create) are runtime behaviour; the system-race and TCP models are tied to the code by measurement, not by an acceptor. Measurement on the real code: 7 long runs (flat periodic, nested periodic, depth-2, far callback pre-empted by interrupts; with and without interrupts) are measured after N, 2N, 4N master ticks (N = 40 quick / 500 thorough): live tasks, finished-but-retained Task objects (gc), pending timers, wakeups, pending interrupts, entries of every container reachable from scheduler and components; the master loop events of each run must be accepted by the flag protocol model; plus 1200 / 16000 messages on one TCP connection through the real handle function with fake streams (some replies fail in the reply task) and 1200 / 16000 message sequences through the real ZeroMqPushIo with a fake socket whose peer goes away (sends fail); a resource that is higher at 4N than at N by more than 2 with non-decreasing differences is reported.')
 LEVEL_NOTE = 'Trusts: Lean kernel for the bookkeeping bound; CPython gc and asyncio.all_tasks for the measurement; harness tasks are excluded by name.'
 ASSUMPTIONS = ['one open TCP connection; fake streams that never block']
 
@@ -177,6 +184,63 @@ async def tcp_messages(n_msgs, marks_at):
     return marks, len(w.out), len(interrupts)
 
 
+async def zmq_sequences(n_seqs, marks_at):
+    """thousands of message sequences through the real ZeroMqPushIo (queued by the adapter and sent directly with
+    send_message_sequence_soon) over a fake socket; from one third of the run on the peer is away: drain() raises"""
+    from tickit.adapters.io.zeromq_push_io import ZeroMqPushIo
+    from tickit.adapters.zmq import ZeroMqPushAdapter
+    state = {"down": False, "written": 0, "sockets": 0}
+
+    class Sock:
+        def write(self, parts):
+            state["written"] += 1
+
+        async def drain(self):
+            await asyncio.sleep(0)
+            if state["down"]:
+                raise ConnectionResetError("peer away")
+
+        def close(self):
+            pass
+
+    async def factory(host, port):
+        state["sockets"] += 1
+        await asyncio.sleep(0)
+        return Sock()
+    loop = asyncio.get_event_loop()
+    old_handler = loop.get_exception_handler()
+    loop.set_exception_handler(lambda l, c: None)   # "Task exception was never retrieved" of the failing sends
+    io = ZeroMqPushIo("h", 1, socket_factory=factory)
+    adapter = ZeroMqPushAdapter()
+
+    async def never():
+        pass
+    setup = asyncio.ensure_future(io.setup(adapter, never))
+    marks = {}
+    for k in range(1, n_seqs + 1):
+        if k == n_seqs // 3:
+            state["down"] = True
+        if k % 2:
+            io.send_message_sequence_soon([[b"a", "s", {"k": k}], [b"b"]])
+        else:
+            io.send_message_sequence_soon([[object()]])   # a part that cannot be serialised: the send fails
+        if not state["down"]:
+            adapter.add_message_to_stream([b"q%d" % k])
+        for _ in range(6):
+            await asyncio.sleep(0)
+        if k in marks_at:
+            gc.collect()
+            marks[k] = {"live_tasks": len([x for x in asyncio.all_tasks(loop) if not x.get_name().startswith("harness")]),
+                        "retained_done_tasks": sum(1 for o in gc.get_objects() if isinstance(o, asyncio.Task) and o.done()),
+                        "container_entries": container_entries([io, adapter])}
+    await io.shutdown() if not state["down"] else None
+    setup.cancel()
+    if io._task:
+        io._task.cancel()
+    loop.set_exception_handler(old_handler)
+    return marks, state
+
+
 def run(tier, seed, drv):
     res = Result()
     rng = random.Random(seed)
@@ -204,6 +268,28 @@ def run(tier, seed, drv):
             if fails:
                 res.violate(V("exception-escaped", f"{fails[0][0]}: {fails[0][1]}", site=fails[0][1].split("(")[0][:60]), case)
             growth(marks, N, name, res, case)
+            # the observable events of the master run loop must be a run of the flag protocol model - the control part of
+            # the resource-annotated loop model of Props/C14Loop (res_run_erases)
+            try:
+                rep = drv.eval([model.master_loop_request(run_)])[0]
+                res.traces_validated += 1
+                if not (rep or {}).get("accepted", False):
+                    res.diverge(f"master run loop (flag protocol model) does not accept the run {name}: at event {(rep or {}).get('at')}", case)
+            except Exception as e:   # noqa: BLE001
+                res.notes.append(f"mloop acceptor not run for {name}: {e!r}")
+    # the ZeroMQ push io: message sequences, with the peer going away
+    Z = 300 if tier == "quick" else 4000
+    (zmarks, zstate) = run_virtual(lambda loop: zmq_sequences(4 * Z, [Z, 2 * Z, 4 * Z]))[0][1]
+    res.case("zmq-push-io", nontrivial=True, sample={"zmq_marks": zmarks, "written": zstate["written"], "sockets": zstate["sockets"]})
+    res.count("zmq-sequences", 4 * Z)
+    if len(zmarks) == 3:
+        a, b, c = zmarks[Z], zmarks[2 * Z], zmarks[4 * Z]
+        for k in a:
+            if c[k] > a[k] + 2 and (c[k] - b[k]) >= (b[k] - a[k]) > 0:
+                res.violate(V("resource-grows", f"zeromq push io: {k} = {a[k]} / {b[k]} / {c[k]} after {Z} / {2 * Z} / {4 * Z} message sequences (peer away from {4 * Z // 3})",
+                              site="zeromq_push_io", resource=k), {"zmq": True, "Z": Z})
+    else:
+        res.violate(V("run-too-short", f"zmq run produced marks {zmarks}", site="zmq"), {"zmq": True, "Z": Z})
     # one TCP connection, many messages
     M = 300 if tier == "quick" else 4000
     (marks, written, ints), _ = (run_virtual(lambda loop: tcp_messages(4 * M, [M, 2 * M, 4 * M]))[0][1], None)
@@ -226,6 +312,10 @@ def run(tier, seed, drv):
 def replay(payload, drv):
     c = payload["case"]
     res = Result()
+    if c.get("zmq"):
+        Z = c["Z"]
+        (zmarks, zstate) = run_virtual(lambda loop: zmq_sequences(4 * Z, [Z, 2 * Z, 4 * Z]))[0][1]
+        return {"marks": zmarks, "violations": [V("resource-grows", str(zmarks))] if zmarks and max(m["retained_done_tasks"] for m in zmarks.values()) > min(m["retained_done_tasks"] for m in zmarks.values()) + 2 else []}
     if c.get("tcp"):
         (marks, written, ints) = run_virtual(lambda loop: tcp_messages(4 * c["M"], [c["M"], 2 * c["M"], 4 * c["M"]]))[0][1]
         return {"marks": marks, "violations": [V("resource-grows", str(marks))] if marks and max(m["retained_done_tasks"] for m in marks.values()) > min(m["retained_done_tasks"] for m in marks.values()) + 2 else []}
